@@ -16,6 +16,8 @@ pub use config::*;
 
 mod pp;
 use pp::{preprocess, PpResult};
+#[cfg(feature = "verif")]
+pub use pp::{Directive, DirectiveType};
 mod resolve_inputs;
 use resolve_inputs::resolve_inputs;
 mod scan_dir;
@@ -90,6 +92,10 @@ impl Txtpp {
         };
 
         let result = runtime.run_internal();
+        #[cfg(feature = "verif")]
+        if let Some(c) = crate::verif::current() {
+            c.on_finish(result.is_ok());
+        }
         if result.is_err() {
             let _ = runtime
                 .progress
@@ -135,6 +141,14 @@ impl Txtpp {
         }
 
         loop {
+            #[cfg(feature = "verif")]
+            if let Some(c) = crate::verif::current() {
+                c.on_poll(
+                    self.progress.done_count,
+                    self.progress.total_count,
+                    dep_mgr.verif_stats(),
+                );
+            }
             let data = match self.recv.try_recv() {
                 Ok(data) => data,
                 Err(TryRecvError::Empty) => {
@@ -153,6 +167,17 @@ impl Txtpp {
             };
 
             let _ = self.progress.add_done(1);
+            #[cfg(feature = "verif")]
+            if let Some(c) = crate::verif::current() {
+                let (kind, file, result) = verif_describe(&data);
+                c.on_recv(
+                    kind,
+                    &file,
+                    result,
+                    self.progress.done_count,
+                    self.progress.total_count,
+                );
+            }
 
             match data {
                 TaskResult::ScanDir(result) => {
@@ -244,8 +269,23 @@ impl Txtpp {
             .print_status(verbs::SCANNING, &dir.to_string(), Color::Yellow, true);
         let send = self.send.clone();
         log::info!("scanning directory: {dir}");
+        #[cfg(feature = "verif")]
+        let verif_ctl = crate::verif::current();
+        #[cfg(feature = "verif")]
+        if let Some(c) = &verif_ctl {
+            c.on_spawn("dir", &dir.to_string(), true, self.progress.total_count);
+        }
         self.threadpool.execute(move || {
+            #[cfg(feature = "verif")]
+            if let Some(c) = &verif_ctl {
+                c.on_begin("dir", &dir.to_string(), true);
+            }
             let result = scan_dir(&dir, recursive);
+            #[cfg(feature = "verif")]
+            let _verif_guard = verif_ctl.as_ref().and_then(|c| {
+                let result = if result.is_ok() { "scandir" } else { "err" };
+                c.on_send("dir", &dir.to_string(), true, result, &[])
+            });
             send.send(TaskResult::ScanDir(result))
                 .expect("cannot send result")
         });
@@ -258,6 +298,10 @@ impl Txtpp {
             // 2. The input is both specified by user and discovered as dependency
             // Therefore, we need to prevent processing the same file multiple times in the first pass.
             if !self.files.insert(file.clone()) {
+                #[cfg(feature = "verif")]
+                if let Some(c) = crate::verif::current() {
+                    c.on_dedup(&file.to_string());
+                }
                 return Ok(());
             }
         }
@@ -278,8 +322,37 @@ impl Txtpp {
         let mode = self.config.mode.clone();
         let trailing_newline = self.config.trailing_newline;
         log::info!("processing file: {file}");
+        #[cfg(feature = "verif")]
+        let verif_ctl = crate::verif::current();
+        #[cfg(feature = "verif")]
+        if let Some(c) = &verif_ctl {
+            c.on_spawn(
+                "file",
+                &file.to_string(),
+                is_first_pass,
+                self.progress.total_count,
+            );
+        }
         self.threadpool.execute(move || {
+            #[cfg(feature = "verif")]
+            let _verif_scope = crate::verif::enter(verif_ctl.clone());
+            #[cfg(feature = "verif")]
+            if let Some(c) = &verif_ctl {
+                c.on_begin("file", &file.to_string(), is_first_pass);
+            }
             let result = preprocess(&shell, &file, mode, is_first_pass, trailing_newline);
+            #[cfg(feature = "verif")]
+            let _verif_guard = verif_ctl.as_ref().and_then(|c| {
+                let f = file.to_string();
+                match &result {
+                    Ok(PpResult::Ok(_)) => c.on_send("file", &f, is_first_pass, "ok", &[]),
+                    Ok(PpResult::HasDeps(_, deps)) => {
+                        let deps = deps.iter().map(|d| d.to_string()).collect::<Vec<_>>();
+                        c.on_send("file", &f, is_first_pass, "hasdeps", &deps)
+                    }
+                    Err(_) => c.on_send("file", &f, is_first_pass, "err", &[]),
+                }
+            });
             send.send(TaskResult::Preprocess(result))
                 .expect("cannot send result")
         });
@@ -318,4 +391,15 @@ impl Drop for Txtpp {
 enum TaskResult {
     ScanDir(Result<Directory, PathError>),
     Preprocess(Result<PpResult, PpError>),
+}
+
+#[cfg(feature = "verif")]
+fn verif_describe(data: &TaskResult) -> (&'static str, String, &'static str) {
+    match data {
+        TaskResult::ScanDir(Ok(_)) => ("dir", String::new(), "scandir"),
+        TaskResult::ScanDir(Err(_)) => ("dir", String::new(), "err"),
+        TaskResult::Preprocess(Ok(PpResult::Ok(f))) => ("file", f.to_string(), "ok"),
+        TaskResult::Preprocess(Ok(PpResult::HasDeps(f, _))) => ("file", f.to_string(), "hasdeps"),
+        TaskResult::Preprocess(Err(e)) => ("file", e.current_context().file.clone(), "err"),
+    }
 }
